@@ -62,9 +62,25 @@ def elementary(rng, kinds=None):
     if k in ('px', 'py', 'pz'):
         return k, [c()]
     if k == 'p':
+        if rng.random() < 0.3:
+            # exactly one non-zero coefficient, of either sign (the PLANEX/Y/Z branches of convert_plane)
+            n = [0.0, 0.0, 0.0]
+            n[rng.randrange(3)] = rng.choice([1.0, -1.0, 2.0, -2.0, -0.5])
+            return 'p', n + [rng.choice(HALF)]
         n = nonzero_vec(rng)
         return 'p', n + [rng.choice(HALF)]
     if k == 'p3':
+        if rng.random() < 0.3:
+            # three points of a plane perpendicular to an axis, on either side of the origin
+            a = rng.randrange(3)
+            cc = rng.choice([-5.0, -2.5, -1.0, 1.0, 2.5, 5.0])
+            uv = rng.choice([[(0, 0), (1, 0), (0, 1)], [(0, 0), (0, 1), (1, 0)], [(1, 2), (-2, 1), (3, -1)]])
+            pts = []
+            for (u_, v_) in uv:
+                q = [float(u_), float(v_)]
+                q.insert(a, cc)
+                pts.append(q)
+            return 'p', pts[0] + pts[1] + pts[2]
         while True:
             pts = [[rint(rng, -4, 4) for _ in range(3)] for _ in range(3)]
             n = cross([pts[1][i] - pts[0][i] for i in range(3)], [pts[2][i] - pts[0][i] for i in range(3)])
